@@ -30,10 +30,27 @@ pub fn check_bound(
         0 => Context::default().with_holidays(holidays.clone()).approx_bound_interval_size(bound),
         1 => Context::default().approx_bound_interval_size(bound).with_holidays(holidays.clone()),
         2 => Context::default().approx_bound_interval_size(bound).with_locale(NoLocation).with_holidays(holidays.clone()),
-        _ => Context::default().with_holidays(holidays.clone()).approx_bound_interval_size(bound).with_locale(NoLocation),
+        3 => Context::default().with_holidays(holidays.clone()).approx_bound_interval_size(bound).with_locale(NoLocation),
+        _ => Context::default().with_holidays(holidays.clone()).approx_bound_interval_size(bound),
     };
-    let text = &format!("{text} [context assembled in order {order}: {}]", ["holidays, bound", "bound, holidays", "bound, locale, holidays", "holidays, bound, locale"][order.min(3) as usize]);
-    let bounded = oh.clone().with_context(ctx);
+    let text = &format!(
+        "{text} [context assembled in order {order}: {}]",
+        ["holidays, bound", "bound, holidays", "bound, locale, holidays", "holidays, bound, locale", "holidays, bound, then normalize() of the value", "holidays, bound, then clone() of the value"][order.min(5) as usize]
+    );
+    // values derived from a value that carries the bound still carry it (S-C16-k: normalize() rebuilds the context)
+    let normalized;
+    let (oh, bounded) = match order {
+        4 => {
+            normalized = guard(|| oh.normalize()).map_err(|p| format!("`{text}`: normalize panicked: {p}"))?;
+            let b = guard(|| oh.clone().with_context(ctx).normalize()).map_err(|p| format!("`{text}`: normalize panicked: {p}"))?;
+            (&normalized, b)
+        }
+        5 => {
+            let first = oh.clone().with_context(ctx);
+            (oh, first.clone())
+        }
+        _ => (oh, oh.clone().with_context(ctx)),
+    };
     // state is unchanged
     let s0 = guard(|| oh.state(t)).map_err(|p| format!("`{text}`: state({t}) panicked: {p}"))?;
     let s1 = guard(|| bounded.state(t)).map_err(|p| format!("`{text}` with bound {}: state({t}) panicked: {p}", fmt_dur(bound)))?;
@@ -138,7 +155,7 @@ fn bound_relation(ch: &mut Choices, case: &mut Case) -> Result<(), String> {
         let bound = bound.max(day).min(Duration::days(366 * 60));
         case.key = format!("{}  t={t} bound={}", g.text, fmt_dur(bound));
         case.units += 1;
-        let order = ch.weighted(&[40, 25, 20, 15]) as u32;
+        let order = ch.weighted(&[35, 20, 15, 12, 12, 6]) as u32;
         let (near, label) = check_bound(&g.oh, &g.holidays.holidays, &g.text, t, bound, order)?;
         case.label(label);
         nontrivial |= near;
@@ -163,7 +180,7 @@ pub fn property() -> Property {
         id: "C16",
         subs: vec![SubCheck {
             name: "bound_relation",
-            rule: "generated expression x calendars x 3 (instant, bound B), the context assembled in one of four orders (holidays / bound / locale): B is placed at the distance of the exact next change, +-1 min, +24 h, +24 h +-1 min, or at the whole number of days between the date of the instant and the day of the exact change / the next first of a month / the next New Year (+-1 s, +-1 day), or drawn log-uniformly from 1 day to 60 years; the exact answer comes from a forward scan of the daily schedules reaching 4 days beyond t+B; with the bound: state equal, next_change in {exact, none}, = exact if exact - t <= B - 24 h, = none if exact - t > B or there is no change; non-trivial = exact - t within 2 days of B or of B - 24 h",
+            rule: "generated expression x calendars x 3 (instant, bound B), the context assembled in one of four orders (holidays / bound / locale), or the value derived by normalize() / clone() from a value carrying the bound: B is placed at the distance of the exact next change, +-1 min, +24 h, +24 h +-1 min, or at the whole number of days between the date of the instant and the day of the exact change / the next first of a month / the next New Year (+-1 s, +-1 day), or drawn log-uniformly from 1 day to 60 years; the exact answer comes from a forward scan of the daily schedules reaching 4 days beyond t+B; with the bound: state equal, next_change in {exact, none}, = exact if exact - t <= B - 24 h, = none if exact - t > B or there is no change; non-trivial = exact - t within 2 days of B or of B - 24 h",
             f: bound_relation,
             text_f: Some(bound_text),
             cases_quick: 40_000,
